@@ -99,6 +99,10 @@ add("C25", "xlsx", "fault_enumeration", "runtime monitor: crash and hang capture
     "Each indexed mutant of the repository's own xlsx test files is imported, turned into a Model and evaluated in a child process; panics, aborts and reproducible timeouts are violations.",
     CRASH_NOTE)
 
+add("C24", "xlsx", "exploration", "runtime monitor: round-trip relation export -> import observed on snapshots of API-built workbooks",
+    "Workbooks built by random API histories are exported with save_xlsx_to_writer, imported with load_from_xlsx_bytes, evaluated and compared fact by fact on what the statement lists; a clean-room half avoids the triggers of the listed findings and tolerates nothing.",
+    "Trusted base: the snapshot projection S restricted to the listed facts, with a 0.51 px tolerance for widths/heights. Malformed workbooks (C27) are skipped.")
+
 NOT_YET = {}
 
 def main():
